@@ -40,6 +40,9 @@ func scenarioC01(r *Run) {
 		r.RecycledSigCap = []int{1, 32, 64, 96, 132}[t.Choose(5, "c01.recycled.cap")]
 		r.Probe("recycled-message-objects")
 	}
+	if t.Bool(1, 6, "c01.algtolib") {
+		r.LeaveAlgToLibrary = true
+	}
 	viaDir := t.Bool(1, 3, "c01.viadir")
 	ent := NewEntropy(uint64(t.U32("entropy.seed")))
 	if t.Bool(1, 5, "entropy.short") {
@@ -94,6 +97,16 @@ func scenarioC01(r *Run) {
 		rc.SetPayload(append([]byte{}, spec.Payload...))
 	}
 	r.Check()
+	if t.Bool(1, 4, "c01.trial") {
+		// the receiver tries the keys it trusts one after the other: the
+		// wrong ones first (refused), then the right one
+		if others := verifiersOfOtherKeys(r, t, spec); others != nil {
+			if err := r.VerifyLib(rc, spec.External, others...); err == nil {
+				r.Fail("verifies-under-another-key/"+spec.Kind.String(), "the decoded message verifies under other keys of the same algorithms\nwire: %s", hexShort(wire))
+			}
+			r.Fired("receiver.tries-another-key-first")
+		}
+	}
 	if err := r.VerifyLib(rc, spec.External, vs...); err != nil {
 		r.Fail("verify-after-roundtrip-fails/"+spec.Kind.String(), "Verify after encode/decode returned %v (detached=%v)\nwire: %s\nspec: %s", err, detached, hexShort(wire), spec)
 	}
